@@ -65,6 +65,9 @@ CANARIES = [
     ("waitloop-busy-test-inverted", "c08_locks", "_utils/lock_management.py", "            if _array_counter[view_arr_id] > 0:\n", "            if _array_counter[view_arr_id] >= 0:\n", r"C08\.release\.iteration\.(idle_view_leaves|idle_live)"),
     ("lockset-single-phase", "c08_sets", "_utils/lock_management.py", "    return tuple(\n        lock_arr_writeability(arr)\n        for arr, read_only in zip(arrs, natively_read_only)\n        if not read_only\n    )", "    return tuple(lock_arr_writeability(arr) for arr in arrs)", r"C08\.lockset.*natively_read_only_array_left_alone"),
     ("lockset-ignores-tracked-base", "c08_sets", "_utils/lock_management.py", "        and (arr.base is None or not array_is_tracked(arr.base))\n        for arr in arrs", "        for arr in arrs", r"C08\.lockset.*every_other_array_locked_once"),
+    ("astype-false-treated-as-unspecified", "c10_astype", "tensor_base.py", "        if cast_data is self.data and (constant is None or self.constant is constant):", "        if cast_data is self.data and (not constant or self.constant is constant):", r"C10\.astype\[self\.constant=True,constant=False,same_array=True"),
+    ("astype-drops-flag", "c10_astype", "tensor_base.py", "        return type(self)(cast_data, copy=False, constant=constant)", "        return type(self)(cast_data, copy=False)", r"C10\.astype.*new_tensor_gets_the_requested_flag"),
+    ("astype-copies-twice", "c10_astype", "tensor_base.py", "        return type(self)(cast_data, copy=False, constant=constant)", "        return type(self)(cast_data, constant=constant)", r"C10\.astype.*new_tensor_gets_the_requested_flag"),
     ("op-no-release-on-refused-result", "c_op", "tensor_base.py", "            if _mem.MEM_GUARD:\n                _mem.release_writeability_lock_on_op(_uniques_bases_then_arrs)\n            raise e", "            raise e", r"C08\.op\.failed_op_releases.*refused_result"),
     ("seed-cast-skipped-for-float-seeds", "c14_seed", "tensor_base.py", "            _grad = asarray(grad, dtype=self.dtype)\n", "            _grad = asarray(grad)\n            if _grad.size <= 1 or _grad.dtype.kind != \"f\":\n                _grad = asarray(grad, dtype=self.dtype)\n", r"I1\.dtype"),
     ("op-base-of-parent-var", "c_op", "tensor_base.py", "base = parent_var if parent_var.base is None else parent_var.base", "base = parent_var", r"C04\.base\.result_base"),
